@@ -183,13 +183,17 @@ def install(w):
     @b("same")
     def _same(ex, args, kw, e, env):
         a, c = args
-        if ex._listy(a) or ex._listy(c):
+        if ex._listy(a) and ex._listy(c):
             return Z(ex.to_list(a) == ex.to_list(c))
         if isinstance(a, Tup) and isinstance(c, Tup):
             if len(a.items) != len(c.items):
                 return Z(z3.BoolVal(False))
             return Z(z3.And([_same(ex, [x, y], {}, e, env).t for x, y in zip(a.items, c.items)]))
         return Z(ex.to_py(a) == ex.to_py(c))
+
+    @b("old")
+    def _old(ex, args, kw, e, env):
+        raise Unsupported("old() is a special form")
 
     @b("implies")
     def _implies(ex, args, kw, e, env):
